@@ -25,4 +25,44 @@ def validateRegistrationPE (cfg : Cfg) (re : Regex) (idOf : Cred → Option Stri
   | .ok (_, creds) =>
     if presented.all (containsCredential idOf creds) then .ok () else .err "not-fulfilled"
 
+/-! ### discovery/client.go — the CLIENT side of a registration -/
+
+/-- `findCredentialsAndBuildPresentation`, PE part: the wallet's credentials (plus the self-attested
+    DiscoveryRegistrationCredential when registration parameters were given: `len(parameters) > 0`) are matched against
+    the service's definition; the descriptor map is discarded (`_`) and EXACTLY the matched credentials are handed to
+    `buildPresentation`. Any Match error is wrapped with `%w` (so `errors.Is(err, pe.ErrNoCredentials)` still sees it). -/
+def clientRegistrationCreds (cfg : Cfg) (re : Regex) (pd : PD) (wallet : List Cred) (regCred : Option Cred) : Res (List Cred) :=
+  let credentials := match regCred with | some c => wallet ++ [c] | none => wallet
+  match pdMatch cfg re pd credentials with
+  | .err e => .err e
+  | .panic s => .panic s
+  | .ok (_, matching) => .ok matching
+
+/-- outcome of `registerPresentation` for one subject DID, as `activate` classifies it -/
+inductive RegResult where
+  | registered      -- err == nil
+  | noCredentials   -- errors.Is(err, pe.ErrNoCredentials): ignored, trace log only
+  | failed          -- any other error: collected in loopErrs
+  deriving DecidableEq, Repr, Inhabited
+
+/-- the loop of `activate` over the subject's DIDs: (len(registeredDIDs), len(loopErrs)) -/
+def activateLoop : List RegResult → Nat × Nat
+  | [] => (0, 0)
+  | r :: rest =>
+    let (reg, errs) := activateLoop rest
+    match r with
+    | .registered => (reg + 1, errs)
+    | .noCredentials => (reg, errs)
+    | .failed => (reg, errs + 1)
+
+/-- what `activate` returns after the DID filters: "no-dids" (ErrNoSupportedDIDMethods), "failed:nocred" (every DID only
+    lacked credentials: the synthesized `pe.ErrNoCredentials` entry), "failed" (some other error), "ok" (at least one DID
+    registered; other DIDs' errors are only logged) -/
+def activateVerdict (results : List RegResult) : String :=
+  if results.length == 0 then "err:no-dids" else
+  let (reg, errs) := activateLoop results
+  if reg == 0 then
+    (if reg != results.length && errs == 0 then "err:failed:nocred" else "err:failed")
+  else "ok"
+
 end Nuts.C12
